@@ -5,6 +5,7 @@ import Driver.Coverage
 import Driver.Text
 import Driver.Sort
 import Driver.Store
+import Driver.Lifecycle
 /-!
 `bvdriver FILE` (or stdin): one case per line, answers one verdict line per case.
 -/
@@ -32,6 +33,7 @@ def handle (line : String) : String :=
       | "C10" => handleC10 inp obs
       | "C01" => handleC01 inp obs
       | "C09" => handleC09 inp obs
+      | "C15" => handleC15 inp obs
       | "C13" => handleC13 inp obs
       | "C14" => handleC14 inp obs
       | "C07" => handleC07 inp obs
